@@ -52,6 +52,7 @@ var nontrivialRules = map[string]func(st map[string]int, val interface{}, err er
 	},
 	"C10": func(st map[string]int, val interface{}, err error) bool { return st["call.error"] > 0 || st["byexpr.badkey"] > 0 || st["byexpr.mixedkey"] > 0 },
 	"C11": func(st map[string]int, val interface{}, err error) bool { return err != nil },
+	"C03": func(st map[string]int, val interface{}, err error) bool { return false },
 	"C05": func(st map[string]int, val interface{}, err error) bool { return true },
 }
 
@@ -81,6 +82,9 @@ func predDiff(c Case) (r Result) {
 		r.Nontrivial = rule(ev.Stats, want, werr)
 	} else {
 		r.Nontrivial = true
+	}
+	if c.Extra["cell"] != nil {
+		r.Nontrivial = true // a cell of an exhaustive table
 	}
 
 	for i, o := range []libOut{one, two} {
